@@ -32,6 +32,8 @@ type c42RV struct {
 //	U<s>            server s sends a response of a type the client does not know
 //	E<s>            the stream to server s fails
 //	C<s>            flip whether new streams to server s can be established
+//	F<s>            the next request the client writes on server s's current
+//	                stream is lost and the stream breaks (Send fails, then Recv)
 //	A               advance virtual time by the scenario's step
 //	L               the slow watcher calls every onDone it is holding
 type c42Ev struct {
@@ -48,7 +50,7 @@ func c42ParseEv(sym string) c42Ev {
 	switch sym[0] {
 	case 'W':
 		ev.W = int(sym[1]-'0') - 1
-	case 'U', 'E', 'C':
+	case 'U', 'E', 'C', 'F':
 		ev.S = int(sym[1] - '0')
 	case 'R':
 		p := strings.Split(sym, ":")
@@ -185,6 +187,8 @@ type c42MChan struct {
 	ws      map[c42Key]*c42Ws
 	queue   []c42Item
 	gate    int
+	failNext bool // armed: the next send on the current stream fails
+	sendDead bool // a send failed: nothing more can be written on this stream
 	snaps   [2][][]string
 }
 
@@ -308,6 +312,12 @@ func (m *c42Model) applicable(ev c42Ev) bool {
 		return ev.W < len(m.sc.Watchers)
 	case 'C':
 		return ev.S < m.sc.NServers && m.lastC != ev.S
+	case 'F':
+		if ev.S >= m.sc.NServers {
+			return false
+		}
+		c := m.ch[ev.S]
+		return c.exists && c.up && !c.failNext && !c.sendDead && !c.doomed()
 	case 'R', 'U', 'E':
 		if ev.S >= m.sc.NServers {
 			return false
@@ -381,6 +391,8 @@ func (m *c42Model) apply(ev c42Ev, step int) *c42Exp {
 	case 'C':
 		m.connOK[ev.S] = !m.connOK[ev.S]
 		m.lastC = ev.S
+	case 'F':
+		m.ch[ev.S].failNext = true
 	case 'A':
 		m.advance(m.sc.Dt)
 	case 'L':
@@ -390,6 +402,11 @@ func (m *c42Model) apply(ev c42Ev, step int) *c42Exp {
 		for _, c := range m.ch {
 			m.pump(c)
 		}
+	}
+	// a failed send leaves the stream's error for the reader: it is read once
+	// the operation that tried to send is over
+	for _, c := range m.ch {
+		m.pump(c)
 	}
 	for sk, g := range m.exp.Reqs {
 		if g.Group {
@@ -459,11 +476,28 @@ func (m *c42Model) subscribe(srv int, k c42Key) {
 	c.hasType[k.T] = true
 	c.ws[k] = &c42Ws{st: c42WsStarted}
 	c.snaps[k.T] = append(c.snaps[k.T], c42SortedNames(c.subs[k.T]))
-	if c.up {
+	if m.sendOK(srv) {
 		m.group(c, srv, k.T)
 		// the request naming k goes out now: the 15 s does-not-exist timer starts
 		c.ws[k] = &c42Ws{st: c42WsRequested, at: m.now + c42Expiry}
 	}
+}
+
+// sendOK: can the client write a request on srv's current stream now? An
+// armed send fault consumes this request: it is lost, nothing more can be
+// written on the stream, and the reader will get the stream's error next.
+func (m *c42Model) sendOK(srv int) bool {
+	c := m.ch[srv]
+	if !c.up || c.sendDead {
+		return false
+	}
+	if c.failNext {
+		c.failNext, c.sendDead = false, true
+		c.queue = append(c.queue, c42Item{K: 'E'})
+		m.feat("send-failed")
+		return false
+	}
+	return true
 }
 
 func (m *c42Model) unsubscribe(srv int, k c42Key) {
@@ -474,7 +508,7 @@ func (m *c42Model) unsubscribe(srv int, k c42Key) {
 	delete(c.subs[k.T], k.N)
 	delete(c.ws, k)
 	c.snaps[k.T] = append(c.snaps[k.T], c42SortedNames(c.subs[k.T]))
-	if c.up {
+	if m.sendOK(srv) {
 		m.group(c, srv, k.T)
 	}
 }
@@ -514,6 +548,7 @@ func (m *c42Model) connect(srv int) {
 	m.exp.Tlog[srv] = append(m.exp.Tlog[srv], "N+")
 	m.streamCtr[srv]++
 	c.up, c.seq, c.gotResp, c.retryAt = true, m.streamCtr[srv], false, -1
+	c.failNext, c.sendDead = false, false
 	c.queue = nil
 	c.nonce = [2]string{}
 	for t := 0; t < 2; t++ {
@@ -734,7 +769,13 @@ func (m *c42Model) readResp(srv int, it c42Item) {
 		m.feat("req:nack")
 	}
 	if c.hasType[t] {
-		m.ack(c, srv, t, c42AckExp{Ver: c.ver[t], Nonce: it.Nonce, Nack: invalid, Names: c42SortedNames(c.subs[t])})
+		if m.sendOK(srv) {
+			m.ack(c, srv, t, c42AckExp{Ver: c.ver[t], Nonce: it.Nonce, Nack: invalid, Names: c42SortedNames(c.subs[t])})
+		} else if invalid {
+			m.feat("req:nack-send-failed")
+		} else {
+			m.feat("req:ack-send-failed")
+		}
 	}
 	if m.sc.Slow >= 0 {
 		if n := len(m.exp.Cbs[m.sc.Slow]) - slowBefore; n > 0 {
